@@ -13,17 +13,12 @@ Open Scope Z_scope.
 Definition fo0 : float_oracle := fun _ => None.
 Definition nd (n : string) : item := Item (S n) [] None None [].
 
-(** FULL STATEMENT (not provable for the current code, see C04_refuted_double_close):
-      forall fo braces a, wf fo a = true -> has_branch_mult a = false ->
-        read_cgsmiles fo (print braces a) = denote fo a. *)
-
-(** {[#A]([#B]([#C]))[#D]}: D is attached to B (only one ')' is processed per node) *)
-Theorem C04_refuted_double_close : exists a,
-  wf fo0 a = true /\ class_C04 true a = 1%nat /\ model_C04 fo0 true a <> 0%nat.
-Proof.
-  exists [Item (S "A") [] None None [Branch [Item (S "B") [] None None [Branch [nd "C"] None None]] None None]; nd "D"].
-  vm_compute. repeat split; discriminate.
-Qed.
+(** repaired (fix 0460546): {[#A]([#B]([#C]))[#D]}, both closings behind C are processed, D is bonded to A *)
+Example C04_fixed_double_close :
+  let a := [Item (S "A") [] None None [Branch [Item (S "B") [] None None [Branch [nd "C"] None None]] None None]; nd "D"] in
+  wf fo0 a = true /\ model_C04 fo0 true a = 0%nat
+  /\ exists g, read_cgsmiles fo0 (print true a) = Ok g /\ edge_get g 0 3 (S "order") = Some (VInt 1) /\ edge_get g 1 3 (S "order") = None.
+Proof. vm_compute. repeat split. eexists. repeat split. Qed.
 (** repaired (fix fd2fb55): [#A]%12[#B][#C]%12, a coarse fragment text without braces ending in a %nn marker,
     is read as the triangle it denotes *)
 Example C04_fixed_pct_at_end :
@@ -94,4 +89,3 @@ Print Assumptions C04_flat_strings.
 Print Assumptions C04_partial.
 Print Assumptions C04_partial_flat.
 Print Assumptions C04_small.
-Print Assumptions C04_refuted_double_close.
